@@ -8,6 +8,8 @@ MCNames == StrUpTo(NameAlpha, NameLen)       \* the empty name, path and message
 MCFiles == {f \in StrUpTo(FileAlpha, FileLen) : Len(f) >= FileMin}
 MCMsgs  == StrUpTo(MsgAlpha, MsgLen)
 MCTexts == {<<116>>}
+AllOpts == [color : BOOLEAN, verb : 0..2]
+PlainOpts == {NoOpt}
 ASSUME EscapeCorrect(EscAlphabet, EscLen)
 ASSUME LocationSound
 \* no two texts share a wire form: Esc is injective on the checked strings
